@@ -2,6 +2,7 @@ package service_account
 
 import (
 	"fmt"
+	"math/bits"
 
 	types "github.com/New-JAMneration/JAM-Protocol/internal/types"
 	utils "github.com/New-JAMneration/JAM-Protocol/internal/utilities"
@@ -186,12 +187,26 @@ func CalcThresholdBalance(aI types.U32, aO types.U64, aF types.U64) types.U64 {
 	/*
 		a_t ∈ N_B ≡ B_S + B_I*a_i + B_L*a_o
 	*/
-	storage := types.U64(types.BasicMinBalance) + types.U64(types.U32(types.AdditionalMinBalancePerItem)*aI) + types.U64(types.AdditionalMinBalancePerOctet)*aO
-	if storage < aF {
-		// result < 0
-		return 0
+	// B_S + B_I*a_i fits in 64 bits for every 32-bit a_i; the multiplication must
+	// be carried out in 64 bits (a 32-bit product wraps for a_i > 2^32/B_I).
+	base := uint64(types.BasicMinBalance) + uint64(types.AdditionalMinBalancePerItem)*uint64(aI)
+	octetHi, octetLo := bits.Mul64(uint64(types.AdditionalMinBalancePerOctet), uint64(aO))
+	storage, carry := bits.Add64(base, octetLo, 0)
+	hi := octetHi + carry
+	if hi == 0 {
+		if storage < uint64(aF) {
+			// result < 0
+			return 0
+		}
+		return types.U64(storage - uint64(aF))
 	}
-	return storage - aF
+	// the raw threshold exceeds 2^64-1: subtract the gratis offset in 128 bits
+	diff, borrow := bits.Sub64(storage, uint64(aF), 0)
+	if hi-borrow != 0 {
+		// not representable in N_B: saturate
+		return types.U64(^uint64(0))
+	}
+	return types.U64(diff)
 }
 
 /*
